@@ -50,7 +50,7 @@ Shim* load_shim(std::string const& dir, std::string const& name);
 struct Options
   {
   std::string prop, tier {"quick"}, shim_dir, out;
-  std::vector<std::string> cfgs, san_cfgs;       // normal and sanitized shim names
+  std::vector<std::string> cfgs, san_cfgs, probes;       // normal, sanitized and index-probe shim names
   int threads {16};
   double deadline_s {1e9};
   // replay
